@@ -336,6 +336,32 @@ def run_case(spec, j):
                       fp_map(api._fitted_state(e2)))
     j.check('C18.pickle-bitwise', same and not changed,
             dict(det0, changed=changed))
+  # numeric hyper-parameters handed over as 0-d arrays (what indexing a
+  # parameter grid held in an ndarray yields): fit must leave them alone
+  dss0 = {'seed': int(rng.randint(2**31 - 1)), 'd': 3, 'classes': 2,
+          'variant': 'plain', 'nmax': 40}
+  ds0 = common.dataset(dss0)
+  f0 = common.build({'est': name, 'params': {}, 'ds': dss0, 'seed': 5}, ds0)
+  gp0 = f0.est.get_params(deep=False)
+  for pn, pv in sorted(gp0.items()):
+    if isinstance(pv, bool) or not isinstance(pv, (int, float)) or \
+            pn in ALIASES or pn == 'random_state':
+      continue
+    arr = np.array(pv)
+    e0 = clone(f0.est).set_params(**{pn: arr})
+    before = arr.copy()
+    with Quiet():
+      try:
+        e0.fit(*f0.args, **f0.kwargs)
+      except Exception:
+        # (a 0-d array is not a documented way to write a number: only what
+        # fit does to it when it accepts it is judged)
+        j.count('c18.zero-d-param-rejected')
+        continue
+    j.check('C18.params-untouched-by-fit',
+            np.array_equal(arr, before, equal_nan=True) and
+            e0.get_params(deep=False)[pn] is arr,
+            dict(det0, parameter=pn, before=before, after=arr))
   if name in ('NCA', 'MLKR', 'LMNN'):
     # random_state must reach every randomised step: on data large and wide
     # enough, the PCA initialisation uses a randomized solver
